@@ -31,12 +31,12 @@ type denomSwap struct {
 
 func (s *denomSwap) ID() core.ActionID { return core.ACTION_SWAP }
 func (s *denomSwap) Name() string      { return "denom-swap" }
-func (s *denomSwap) HandlePacket(_ context.Context, p *types.ActionPacket) error {
+func (s *denomSwap) HandlePacket(ctx context.Context, p *types.ActionPacket) error {
 	s.ran++
 	ta := p.TransferAttributes
 	s.saw = append(s.saw, sdk.Coin{Denom: ta.DestinationDenom(), Amount: ta.DestinationAmount()})
-	s.l.Set(core.ModuleAddress, ta.DestinationDenom(), math.ZeroInt())
-	s.l.Set(core.ModuleAddress, s.newDenom, s.l.Bal(core.ModuleAddress, s.newDenom).Add(s.newAmt)) // on top of what the account already holds
+	s.l.setIn(ctx, core.ModuleAddress, ta.DestinationDenom(), math.ZeroInt())
+	s.l.setIn(ctx, core.ModuleAddress, s.newDenom, s.l.balIn(ctx, core.ModuleAddress, s.newDenom).Add(s.newAmt)) // on top of what the account already holds
 	// (a controller may set the two attributes in either order)
 	if s.amountFirst {
 		ta.SetDestinationAmount(s.newAmt)
